@@ -533,6 +533,59 @@ def check_C13(run, replay=None):
     return run.finish()
 
 
+def regen_translator(run, name):
+    """runs a translator (`vh <name>`) that regenerates coq/theories/Gen/*.v from /repo's source"""
+    ok, out = build_vh()
+    if not ok:
+        raise RuntimeError("harness does not build against /repo:\n" + out[-3000:])
+    rc, out = sh([os.path.join(BUILD, "bin", "vh"), name], env=GOENV, cwd=HARNESS, timeout=600)
+    if rc != 0:
+        raise RuntimeError("translator %s failed:\n%s" % (name, out[-3000:]))
+    run.log("translator: " + out.strip().split("\n")[-1])
+
+
+def check_C12(run, replay=None):
+    regen_translator(run, "mapsites")
+    proof_ok = run.proof_side()
+    # the unreachable-function claim of the site table (KDead) is re-checked with the deadcode tool
+    rc, dc = sh("deadcode ./... 2>/dev/null", cwd="/repo", env=GOENV, timeout=300)
+    dead_ok = "unreachable func: GetSecurity" in dc
+    cases, impl, model, meta = run.run_vh(["-cases", replay] if replay else None)
+    compare(run, cases, impl, model, nontrivial=lambda c, iv: True,
+            context=lambda i: None)
+    run.coverage.update({
+        "rule": "REGENERATED OBLIGATION: the map-range inventory of /repo's non-test packages (go/packages + go/types) must lie inside the "
+                "reviewed site table (C12_all_map_sites_modelled, C12_no_other_sources, closed by computation). BEHAVIOUR: a map-fat spec (>=4 "
+                "entries in paths, parameters, headers, responses, schemas, properties, security schemes, requirement lists, discriminator mapping "
+                "with several keys per target, server variables whose defaults mention each other, scopes, request bodies) with and without client, "
+                "every fixture spec and seeded JSON-corpus specs are each generated N times in one process and M times in fresh processes; the "
+                "sha256 over all written files must be one value per (spec, options); Go randomises every map range, so every run is a new "
+                "schedule; non-trivial: every case",
+        "input_distribution": meta,
+        "programs": meta.get("specs", 0),
+        "deadcode_confirms_GetSecurity_unreachable": dead_ok,
+        "samples": [{"spec": c.split(" ")[1], "impl": i} for c, i in list(zip(cases, impl))[:4]],
+        "trusted_base": TRUSTED_COMMON + [
+            "translator harness/cmd/vh/mapsites.go (go/packages, go/types): completeness of the map-range inventory; the site table's kinds are a "
+            "reviewed reading of each loop (Model/MapOrder.v); text/template iterating maps in sorted key order and goimports being deterministic "
+            "are trusted; Go's map iteration freedom is modelled as 'any permutation'"],
+    })
+    if not dead_ok:
+        run.violation({"property": "C12", "broken": "site table: specification.GetSecurity is classified KDead but deadcode no longer reports it unreachable",
+                       "input": None}, None, note="no-failing-input-found")
+    if not proof_ok:
+        # a new or edited map range: search for two differing outputs with a longer run
+        found = [c for c, i in zip(cases, impl) if not i.startswith("impl=1")]
+        cf = getattr(run, "coq_failure", {})
+        try:
+            cf["map_ranges"] = open(os.path.join(COQ, "theories", "Gen", "MapSites.txt")).read()[-6000:]
+        except OSError:
+            pass
+        if not found:
+            run.violation(dict(cf, input=None), None, note="no-failing-input-found")
+    return run.finish()
+
+
 # ---- router family --------------------------------------------------------
 
 def fam_impl(im, mo=""):
@@ -1002,7 +1055,7 @@ def check_C17(run, replay=None):
         trusted=ROUTER_TRUSTED + ["http.CanonicalHeaderKey modelled for ASCII (Model/Serve.v canon_key), tied by these cases"])
 
 
-CHECKS = {"C19": check_C19, "C13": check_C13, "C03": check_C03, "C04": check_C04, "C05": check_C05, "C06": check_C06, "C07": check_C07, "C08": check_C08, "C11": check_C11, "C16": check_C16, "C17": check_C17}
+CHECKS = {"C12": check_C12, "C19": check_C19, "C13": check_C13, "C03": check_C03, "C04": check_C04, "C05": check_C05, "C06": check_C06, "C07": check_C07, "C08": check_C08, "C11": check_C11, "C16": check_C16, "C17": check_C17}
 
 
 def setup():
